@@ -480,6 +480,11 @@ func (t *c17) mdnsCase(r *rand.Rand) {
 			m.Ar = append(m.Ar, rr)
 		}
 	}
+	type txtRec struct {
+		sec   int
+		model string
+	}
+	var txtRecs []txtRec
 	n := 1 + r.Intn(5)
 	secs := make([]int, n)
 	for i := range secs {
@@ -501,7 +506,38 @@ func (t *c17) mdnsCase(r *rand.Rand) {
 		case 4:
 			add(sec, refdec.DNSRR{Name: owner, Type: refdec.TypeNSEC, Class: 0x8001, TTL: 120, RData: append(wireName(owner), 0, 4, 0x40, 0, 0, 8)})
 		default:
-			add(sec, refdec.DNSRR{Name: "inst._svc._tcp.local", Type: refdec.TypeTXT, Class: 1, TTL: 10, RData: []byte{1, 'a'}})
+			if r.Intn(2) == 0 {
+				add(sec, refdec.DNSRR{Name: "inst._svc._tcp.local", Type: refdec.TypeTXT, Class: 1, TTL: 10, RData: []byte{1, 'a'}})
+				break
+			}
+			// a DNS-SD TXT record (RFC 6763 6.4) of three to six strings: key=value pairs, boolean attributes without "=",
+			// empty strings, and in most of them one of the keys the handler reads the device model from. The last TXT
+			// record of a response that names a model decides the model of every entry the response yields
+			var strs []string
+			for k, nstr := 0, 2+r.Intn(4); k < nstr; k++ {
+				strs = append(strs, []string{"Duplex", "Color", "", "osxvers=20", "a=b", "rp=ipp/print", "flags", "txtvers=1"}[r.Intn(8)])
+			}
+			mv := ""
+			if r.Intn(4) != 0 {
+				mv = []string{"MacBookPro14,1", "Chromecast Ultra", "J105aAP", "HP LaserJet 400", "x"}[r.Intn(5)]
+				at := r.Intn(len(strs) + 1)
+				strs = append(strs[:at], append([]string{[]string{"model", "ty", "DvTy", "md"}[r.Intn(4)] + "=" + mv}, strs[at:]...)...)
+			} else {
+				strs = append(strs, "vers=1")
+			}
+			var rd []byte
+			for _, x := range strs {
+				rd = append(append(rd, byte(len(x))), x...)
+			}
+			add(sec, refdec.DNSRR{Name: "inst._svc._tcp.local", Type: refdec.TypeTXT, Class: 1, TTL: 10, RData: rd})
+			txtRecs = append(txtRecs, txtRec{sec, mv})
+		}
+	}
+	// sections are decoded in order (the records were added in section order): the last TXT record with a model wins
+	wantModel := ""
+	for _, x := range txtRecs {
+		if x.model != "" {
+			wantModel = x.model
 		}
 	}
 	compress := r.Intn(2) == 0
@@ -545,6 +581,13 @@ func (t *c17) mdnsCase(r *rand.Rand) {
 			if got[i].NameEntry.Name != want[i].name || got[i].Addr.IP != want[i].ip || !bytes.Equal(got[i].Addr.MAC, mac[:]) {
 				c.Viol("mdns:"+fam+"-entry", fmt.Sprintf("entry %d = {%q %v %v}, want {%q %v %v}", i, got[i].NameEntry.Name, got[i].Addr.IP, got[i].Addr.MAC, want[i].name, want[i].ip, mac), cs())
 				return false
+			}
+			if got[i].NameEntry.Model != wantModel {
+				c.Viol("mdns:"+fam+"-model", fmt.Sprintf("entry %d carries model %q, the TXT records of the response say %q", i, got[i].NameEntry.Model, wantModel), cs())
+				return false
+			}
+			if wantModel != "" {
+				c.Obs("mdns_entries_with_a_model_compared", 1)
 			}
 		}
 		return true
